@@ -48,7 +48,11 @@ pub fn replay(case: &Value) -> Option<String> {
         }
     }
     let spec = serde_json::from_value(case["net"].clone()).ok()?;
-    let b = Arc::new(crate::bridge::Bound::new("replay", &spec, 3).ok()?);
+    let mut b = Arc::new(crate::bridge::Bound::new("replay", &spec, 3).ok()?);
+    if let Some(rest) = case["graph_name"].as_str().and_then(|n| n.split("|colours[").nth(1)) {
+        let keep: Vec<usize> = rest.trim_end_matches(']').split(',').filter_map(|s| s.trim().parse().ok()).collect();
+        b = Arc::new(b.restrict_colours(&keep));
+    }
     let ctx = NetCtx::new(b, Labels::default(), "none");
     let f: F = serde_json::from_value(case["formula"].clone()).ok()?;
     check(&ctx, &f)
@@ -60,7 +64,23 @@ pub fn run(tier: &str) -> Result<Report, String> {
     let nets = core_nets(3)?;
     let (m_frag, m_free, pool) = (5, 5, 5);
     let mut steady_free = vec![];
+    // every core network, and the multi-colour ones also on graphs whose unit set was restricted after construction
+    // (SymbolicAsyncGraph::restrict) to every second colour / to each single colour (a restriction to steady-state-free
+    // colours makes a network "steady-state free" for this property)
+    let mut with_units: Vec<Arc<crate::bridge::Bound>> = vec![];
     for b in &nets {
+        with_units.push(b.clone());
+        if b.cols.len() >= 2 {
+            with_units.push(Arc::new(b.restrict_colours(&(0..b.cols.len()).step_by(2).collect::<Vec<_>>())));
+            for c in 0..b.cols.len().min(if tier == "quick" { 2 } else { 4 }) {
+                with_units.push(Arc::new(b.restrict_colours(&[b.cols.len() - 1 - c])));
+            }
+        }
+    }
+    rep.set("graphs_with_restricted_unit_set", json!(with_units.len() - nets.len()));
+    for b in &with_units {
+        let restricted = b.name.contains("|colours[");
+        let (m_frag, m_free, pool) = if restricted { (4, 4, 2) } else { (m_frag, m_free, pool) };
         crate::sem::note_network(&mut rep, b);
         let ctx = NetCtx::new(b.clone(), Labels::default(), "none");
         let no_steady = b.cols.iter().all(|c| c.steady.iter().all(|s| !*s));
@@ -86,7 +106,7 @@ pub fn run(tier: &str) -> Result<Report, String> {
         debug_assert!(no_steady || fs.iter().all(loop_insensitive));
         let bad: Vec<Violation> = fs
             .par_iter()
-            .filter_map(|f| check(&ctx, f).map(|w| Violation { case: json!({"kind": "unsafe_ex", "net": b.spec, "aeon": b.aeon, "formula": f, "text": f.show(&ctx.user)}), what: format!("formula {} on {}: {w}", f.show(&ctx.user), b.name), size: f.size() }))
+            .filter_map(|f| check(&ctx, f).map(|w| Violation { case: json!({"kind": "unsafe_ex", "net": b.spec, "aeon": b.aeon, "graph_name": b.name, "formula": f, "text": f.show(&ctx.user)}), what: format!("formula {} on {}: {w}", f.show(&ctx.user), b.name), size: f.size() }))
             .collect();
         rep.evaluations += fs.len() as u64 * 2;
         rep.distinct_nontrivial += fs.len() as u64;
